@@ -375,7 +375,13 @@ class World:
         if op == 'extend':
             c.extend([self.val(t) for t in a[2:]]); return None
         if op == 'iadd':
-            c += [self.val(t) for t in a[2:]]; return None
+            vals = [self.val(t) for t in a[2:]]
+            from collections.abc import Iterable
+            if len(vals) == 1 and not isinstance(vals[0], Iterable) and len(list(c)) % 2 == 0:
+                c += vals[0]        # `c += x` with one value that is no collection: the value itself is appended
+            else:
+                c += vals
+            return None
         if op in SETOPS:
             vals = [self.val(t) for t in a[2:]]
             if op == 'discard':
